@@ -381,6 +381,45 @@ example : let c := crunF rfS rfCx ⟨0, 1⟩ ⟨⟨[], none⟩, Lyds.empty⟩ rf
    (inv_reachable_rb_change rfS rfCx ⟨0, 1⟩ rfl rfOpsC ⟨⟨[], none⟩, Lyds.empty⟩ (C04.inv_init _ _ (by decide))
      ⟨rfl, ⟨trivial, trivial, rfl⟩, Or.inl rfl⟩ (C04.histOkB_sound (by decide))).2⟩
 
+/-- `lyd_dup_single / lyd_dup_siblings(node, parent, …)` into a caller-supplied parent that ALREADY has children, seen from the
+    parent's child list: the copies `copies` (fresh identities; `HistOk`: each may be inserted) are linked one by one by
+    `lyd_insert_node`.  The child list afterwards is the canonical (sorted-stable) insertion of the copies into the old
+    children, it satisfies the sibling-list invariant, and the concrete sorting tree of every system-ordered (leaf-)list `x`
+    lists exactly the instances of `x` — old ones and copies — and is a valid red-black tree (or is still to be built).
+    (The `first_llist` fast path of `lyd_dup` appends a copy only where appending IS this position; that the C code takes it
+    only then is what the differential `dupinto` of C14 and the white-box law families of C04 check.) -/
+theorem dup_into_parent_canonical (S : Schema) (cx : Cx) (x : SRef) (hx : (S x).sorted = true) (copies : List Node) (c : CSibs)
+    (h : Inv S cx c.sibs) (href : LydsOk c.lyds (block x c.sibs.nodes))
+    (hok : HistOk S cx true c.sibs (copies.map Op.insert)) :
+    (crun S cx true x c (copies.map Op.insert)).sibs.nodes = sinsAll (fun a b => nle S a b) c.sibs.nodes copies ∧
+    Inv S cx (crun S cx true x c (copies.map Op.insert)).sibs ∧
+    LydsOk (crun S cx true x c (copies.map Op.insert)).lyds (block x (crun S cx true x c (copies.map Op.insert)).sibs.nodes) := by
+  have hc : ∀ o ∈ copies.map Op.insert, isChange o = false := by
+    intro o ho
+    obtain ⟨n, _, rfl⟩ := List.mem_map.mp ho
+    rfl
+  obtain ⟨e, hi, hl⟩ := inv_reachable_rb S cx true x hx _ c h href hok hc
+  refine ⟨?_, hi, hl⟩
+  rw [e, runOps_inserts_nodes S cx true copies c.sibs h hok]
+
+/-- non-vacuity (audit): the parent of `rfOps` (children: keyed-list instances "a", "b", leaf-list values 3, 5, 8) receives copies of
+    the leaf-list values 4, 9, 1 and of a keyed-list instance "ab": each lands at its sorted place, the tree lists all six values -/
+def dpCopies : List Node :=
+  [⟨30, some ⟨0, 1⟩, .int 4⟩, ⟨31, some ⟨0, 1⟩, .int 9⟩, ⟨32, some ⟨0, 1⟩, .int 1⟩, ⟨33, some ⟨0, 0⟩, .str [97, 98]⟩]
+
+def dpC : CSibs := crun rfS rfCx true ⟨0, 1⟩ ⟨⟨[], none⟩, Lyds.empty⟩ rfOps
+
+theorem dpCopies_ok : HistOk rfS rfCx true dpC.sibs (dpCopies.map Op.insert) := C04.histOkB_sound (by decide)
+
+example : (crun rfS rfCx true ⟨0, 1⟩ dpC (dpCopies.map Op.insert)).sibs.nodes.map (·.id) = [4, 33, 8, 32, 6, 30, 1, 5, 31] ∧
+    (inorder (crun rfS rfCx true ⟨0, 1⟩ dpC (dpCopies.map Op.insert)).lyds.tree).map (·.id) = [32, 6, 30, 1, 5, 31] := by decide
+
+example : LydsOk (crun rfS rfCx true ⟨0, 1⟩ dpC (dpCopies.map Op.insert)).lyds
+    (block ⟨0, 1⟩ (crun rfS rfCx true ⟨0, 1⟩ dpC (dpCopies.map Op.insert)).sibs.nodes) := by
+  have h := inv_reachable_rb rfS rfCx true ⟨0, 1⟩ rfl rfOps ⟨⟨[], none⟩, Lyds.empty⟩ (C04.inv_init _ _ (by decide))
+    ⟨rfl, ⟨trivial, trivial, rfl⟩, Or.inl rfl⟩ rfOps_ok (by decide)
+  exact (dup_into_parent_canonical rfS rfCx ⟨0, 1⟩ rfl dpCopies dpC h.2.1 h.2.2 dpCopies_ok).2.2
+
 /-! ## `lyds_merge`: a whole (leaf-)list moved onto the instances already present (Sib/RbMerge.lean)
 
 `mergeTree gt dst dl src sl`: `dl` / `sl` = destination / source instances in sibling order, `dst` / `src` = their trees (`nil` =
